@@ -583,6 +583,9 @@ func (t *Tree) RerootMidPoint() error {
 			potentialedges = edges
 		}
 	}
+	if curlength <= 0 || len(potentialedges) == 0 {
+		return errors.New("cannot reroot at midpoint: all tip to tip paths have a null length")
+	}
 	// Path potentialedges starts from tip 1:
 	// potentialedges[0].Right()
 	// And ends at tip 2:
